@@ -78,7 +78,8 @@ SchC == sch.ctxc \/ EgC                \* schedule()'s own ctx
 LsC  == lsown \/ EgC                   \* Listen()'s own ctx
 
 Cap(i, d) == IF i < InitCount /\ d > InitCap THEN InitCap ELSE d
-Waits(i) == {Cap(i, d) : d \in MinIv..MaxIv}
+\* the loop waits a whole number of seconds (Sec ticks) between MinIv and MaxIv
+Waits(i) == {Cap(i, d) : d \in {x \in MinIv..MaxIv : (x - MinIv) % Sec = 0}}
 
 Life == IF fwd THEN CfgLife ELSE 0
 
